@@ -63,6 +63,18 @@ def sources(tier, seed, ctx):
             s['shape'] = P.SHAPES[k % len(P.SHAPES)]
             k += 1
             srcs.append(s)
+    # three equivalent gates, one of them carrying the empty label (or a label that is falsy / looks like a number), in every
+    # labelling and output order: the representative of an equivalence group is a LABEL, whatever it looks like
+    import itertools as _it
+    for trio in (('', 'p', 'q'), ('0', 'p', 'q'), ('', '0', ' ')):
+        for perm in _it.permutations(trio):
+            for outs in ([7, 8], [8, 7], [6, 8, 7]):
+                # inputs a, b, c; e1 = AND(a, b); e2 = NOR(NOT a, NOT b) via n1, n2; e3 = AND(b, a, b); users u1 = OR(e?, c) ...
+                gs = [['AND', [1, 2]], ['NAND', [2, 1]], ['AND', [2, 1, 2]], ['NOT', [5]], ['OR', [4, 3]], ['XOR', [6, 7]], ['AND', [7, 3]], ['OR', [8, 9]]]
+                labels = ['a', 'b', 'c', perm[0], 'nn', perm[1], perm[2], 'u1', 'u2', 'u3', 'u4'][:3 + len(gs)]
+                # e-gates: node 4 (perm[0]), node 7 = NOT(NAND) (perm[2]), node 6 = AND(b,a,b) (perm[1])
+                for name in ('MEG', 'cleanup_heavy'):
+                    srcs.append({'net': [3, gs], 'outs': [o + 2 for o in outs], 'variant': 'plain', 'vs': 0, 'pass': name, 'labels': labels})
     # deep circuits through pipelines of every shape
     for depth in ([1500] if tier == 'quick' else [1500, 4000]):
         for j, shape in enumerate(P.SHAPES):
